@@ -618,6 +618,8 @@ func main() {
 		if only == "history" {
 			break
 		}
+		c.Emit(map[string]any{"kind": "breaker-gauge", "engine": engine, "impl": breakerGaugeCase(engine)})
+		c.Count("breaker-gauge." + engine)
 		c.Emit(map[string]any{"kind": "methods", "engine": engine, "impl": methodsCase(engine)})
 		c.Count("methods." + engine)
 	}
